@@ -102,7 +102,10 @@ def targeted_jobs(ctx: Ctx, data, jobs):
             else:
                 inners = [Operated(opn[shape], (A, B)), Operated(opn[shape], (A, N(B))), Operated(opn[shape], (A, A))]
                 pool = [A, B, N(A), N(B), Operated(Operator.Conjunction, (A, B)), Operated(Operator.Disjunction, (A, B)),
-                        Operated(Operator.Disjunction, (N(A), B)), Operated(Operator.Conjunction, (N(A), N(B)))]
+                        Operated(Operator.Disjunction, (N(A), B)), Operated(Operator.Conjunction, (N(A), N(B))),
+                        # value-forcing premises: designated ~(B v ~B) pins B to a gap value, designated B & ~B to a glut value
+                        N(Operated(Operator.Disjunction, (B, N(B)))), Operated(Operator.Conjunction, (B, N(B))),
+                        N(Operated(Operator.Disjunction, (A, N(A)))), Operated(Operator.Conjunction, (A, N(A)))]
             args = []
             for inner in inners:
                 S = N(inner) if ng else inner
